@@ -122,35 +122,52 @@ def r11_1(ctx, run, rule='R11.1', only=None):
     else:
         run.floor(rule, 'dispatching entry points of this property', len([p for p in ds if p in only]), len(only))
     nparam = 0
+    memo = {}
+
+    def analyse(p, k, depth=0):
+        """(bad call sites, number of binary consumers, number of sniffs) for document parameter k of function p"""
+        if (p, k) in memo:
+            return memo[(p, k)]
+        memo[(p, k)] = ([('rec', None, p)], 1, 0)     # recursion guard: pessimistic
+        b = f.bodies[p]
+        ex = Expr(b)
+        edges, nsniff = true_edges_of_sniff(b, ex, k)
+        unguarded = reachable_without(b, edges)
+        bad = []
+        consumers = 0
+        for bb, t in b.calls():
+            nm = callee_name(t)
+            hit = [i for i, a in enumerate(t['args']) if uses_param(ex.operand(a), k)]
+            if not hit:
+                continue
+            c = t['callee']
+            local = c.get('resolved') if c.get('resolved_local') else (c.get('written') if c.get('local') else None)
+            if called(nm, *TEXT_CAPABLE):
+                continue
+            if called(nm, 'Vec::extend_from_slice') and hit == [1]:
+                continue    # copying the raw bytes does not interpret them
+            if local in ds:
+                # a public function that dispatches the argument itself (position must be a document parameter there)
+                if all((i + 1) in ds[local] for i in hit):
+                    continue
+            elif local in f.bodies and local in f.fns and depth < 4 and (local.startswith('functions::') or local.startswith('lazy_value::')):
+                # a private helper that dispatches the argument itself: judged by the same rule
+                dp = doc_params(f.fns[local])
+                if all((i + 1) in dp for i in hit) and all(not analyse(local, i + 1, depth + 1)[0] for i in hit):
+                    continue
+            consumers += 1
+            if bb in unguarded:
+                bad.append((bb, t, nm))
+        memo[(p, k)] = (bad, consumers, nsniff)
+        return memo[(p, k)]
+
     for p, params in ds.items():
         if only is not None and p not in only:
             continue
         b = f.bodies[p]
-        ex = Expr(b)
         for k in params:
             nparam += 1
-            edges, nsniff = true_edges_of_sniff(b, ex, k)
-            unguarded = reachable_without(b, edges)
-            bad = []
-            consumers = 0
-            for bb, t in b.calls():
-                nm = callee_name(t)
-                hit = [i for i, a in enumerate(t['args']) if uses_param(ex.operand(a), k)]
-                if not hit:
-                    continue
-                c = t['callee']
-                local = c.get('resolved') if c.get('resolved_local') else (c.get('written') if c.get('local') else None)
-                if called(nm, *TEXT_CAPABLE):
-                    continue
-                if called(nm, 'Vec::extend_from_slice') and hit == [1]:
-                    continue    # copying the raw bytes does not interpret them
-                if local in ds:
-                    # a public function that dispatches the argument itself (position must be a document parameter there)
-                    if all((i + 1) in ds[local] for i in hit):
-                        continue
-                consumers += 1
-                if bb in unguarded:
-                    bad.append((bb, t, nm))
+            bad, consumers, nsniff = analyse(p, k)
             # raw slicing of the parameter outside calls (Index on the param) shows up as Index::index calls above
             name = (f.fns[p]['params'][k - 1] if k - 1 < len(f.fns[p]['params']) else f'#{k}') or f'#{k}'
             if bad:
